@@ -97,6 +97,9 @@ def gen_cases(tier: str, seed: int):
         if x < 0.135:
             yield {"kind": "pandas_docs", "seed": r.randrange(1 << 30)}
             continue
+        if x < 0.142:
+            yield {"kind": "variable_paths", "seed": r.randrange(1 << 30), "source": r.choice(["literal", "column"])}
+            continue
         if x < 0.15:
             yield {"kind": r.choice(["flatten2", "nested_cast"]), "seed": r.randrange(1 << 30), "source": r.choice(["literal", "column"])}
             continue
@@ -180,6 +183,8 @@ def run_case(case: dict, env: core.Env) -> None:
         return _array_literal(case, env, cur)
     if kind == "pandas_docs":
         return _pandas_docs(case, env, cur)
+    if kind == "variable_paths":
+        return _variable_paths(case, env, cur)
     if kind == "flatten2":
         return _flatten2(case, env, cur)
     if kind == "nested_cast":
@@ -424,6 +429,36 @@ def _store(cur: Any, doc: Any) -> tuple[int, str]:
     cur.execute("DELETE FROM DOCS")
     cur.execute(f"INSERT INTO DOCS SELECT {rid}, {lit_src}")
     return rid, lit_src
+
+
+def _variable_paths(case: dict, env: core.Env, cur: Any) -> None:
+    """A key, a path or an array position held in a session variable navigates like the same thing written out."""
+    r = random.Random(case["seed"])
+    doc = {"a": {"b": r.choice(_WORDS), "n": r.randint(0, 99)}, "kind": r.choice(_WORDS), "arr": [r.randint(0, 9) for _ in range(3)]}
+    rid, lit_src = _store(cur, doc)
+    src = lit_src if case["source"] == "literal" else "V"
+    frm = "" if case["source"] == "literal" else f" FROM DOCS WHERE ID = {rid}"
+    i = r.randrange(3)
+    forms = [
+        ("get_path-variable-path", "SET p = 'a.b'", f"GET_PATH({src}, $p)::VARCHAR", f"GET_PATH({src}, 'a.b')::VARCHAR", doc["a"]["b"]),
+        ("get_path-variable-key", "SET p = 'kind'", f"GET_PATH({src}, $p)::VARCHAR", f"GET_PATH({src}, 'kind')::VARCHAR", doc["kind"]),
+        ("bracket-variable-key", "SET p = 'kind'", f"{src}[$p]::VARCHAR", f"{src}['kind']::VARCHAR", doc["kind"]),
+        ("position-variable", f"SET p = {i}", f"{src}:arr[$p]::INT", f"{src}:arr[{i}]::INT", doc["arr"][i]),
+        ("compared-with-variable", f"SET p = {qs(doc['kind'])}", f"{src}:kind::VARCHAR = $p", f"{src}:kind::VARCHAR = {qs(doc['kind'])}", True),
+    ]
+    env.cover("op_x_kind", f"variable_paths/{case['source']}")
+    for name, setv, expr, written_out, want in forms:
+        cur.execute(setv)
+        a = core.run_stmt(cur, f"SELECT {expr} AS X{frm}")
+        b = core.run_stmt(cur, f"SELECT {written_out} AS X{frm}")
+        env.count("cmp_extract")
+        if not b["ok"] or b["rows"] != [(want,)]:
+            continue  # the written-out form itself is what the other cases of this property examine
+        if not a["ok"]:
+            env.witness(f"C11/variable-held-path/rejected/{name}", f"{setv}; {a['sql']}: {a['exc']['msg'][:200]}")
+        elif a["rows"] != b["rows"]:
+            env.witness(f"C11/variable-held-path/differs-from-written-out/{name}", f"{setv}; {a['sql']} -> {a['rows']} but {b['sql']} -> {b['rows']}")
+    env.nontrivial(("variable_paths", json.dumps(doc), case["source"], i))
 
 
 def _pandas_docs(case: dict, env: core.Env, cur: Any) -> None:
